@@ -83,3 +83,58 @@ Proof.
   intros input. unfold parse_idl. pose proof (parser_never_out_of_fuel input) as H.
   destruct (parse_text input) as [[v|es]|]; cbn; [destruct v; discriminate | discriminate | congruence].
 Qed.
+
+(** ** Witnesses: Thrift-valid texts the faithful model (like the real parser) rejects or misreads *)
+Definition idl (s : string) : bytes := app (bytes_of_string s) [10].
+Definition cat (l : list bytes) : bytes := List.concat l.
+Definition tname (t : ptype) : bytes := match t with PType n _ _ _ => n end.
+Definition is_rejected (o : parse_outcome) : bool := match o with PErr _ => true | _ => false end.
+
+Open Scope string_scope.
+
+Lemma w_basetype_prefix :
+  is_rejected (parse_idl (idl "typedef i32x T")) = true
+  /\ is_rejected (parse_idl (idl "struct S { 1: stringList names }")) = true
+  /\ is_rejected (parse_idl (idl "service S { binary_data get() }")) = true.
+Proof. vm_compute. repeat split; reflexivity. Qed.
+
+Lemma w_modifier_prefix :
+  exists f, parse_idl (idl "struct S { 1: optionalThing x }") = POk f
+            /\ map (fun s => map (fun fl => (f_mod fl, tname (f_type fl))) (s_fields s)) (fr_structs f)
+               = [[(m_optional, bytes_of_string "Thing")]].
+Proof. eexists. vm_compute. split; reflexivity. Qed.
+
+Lemma w_oneway_prefix :
+  exists f, parse_idl (idl "service S { onewayTicket get() }") = POk f
+            /\ map (fun s => map (fun m => (m_oneway m, option_map tname (m_return m))) (sv_methods s)) (fr_services f)
+               = [[(true, Some (bytes_of_string "Ticket"))]].
+Proof. eexists. vm_compute. split; reflexivity. Qed.
+
+Lemma w_void_prefix : is_rejected (parse_idl (idl "service S { voidable get() }")) = true.
+Proof. vm_compute. reflexivity. Qed.
+
+Lemma w_bool_prefix :
+  is_rejected (parse_idl (idl "const bool y = trueValue")) = true
+  /\ exists f, parse_idl (idl "const list<bool> y = [trueValue]") = POk f
+               /\ map c_value (fr_constants f) = [CList [CBool true; CIdent (bytes_of_string "Value")]].
+Proof. split; [vm_compute; reflexivity|]. eexists. vm_compute. split; reflexivity. Qed.
+
+Lemma w_newline_inside_declaration :
+  is_rejected (parse_idl (cat [bytes_of_string "typedef"; [10]; bytes_of_string "  i32 T"; [10]])) = true.
+Proof. vm_compute. reflexivity. Qed.
+
+Lemma w_comment_in_prefix :
+  exists f, parse_idl (idl "scope S prefix /* topic */ foo.bar {}") = POk f
+            /\ map (fun s => p_string (sc_prefix s)) (fr_scopes f) = [bytes_of_string "/* topic */ foo.bar"].
+Proof. eexists. vm_compute. split; reflexivity. Qed.
+
+Lemma w_const_map_semicolon : is_rejected (parse_idl (idl "const map<i32,i32> m = {1:2; 3:4}")) = true.
+Proof. vm_compute. reflexivity. Qed.
+
+(** "a\\" : a string literal whose value ends in a backslash; "it\'s" : an escaped apostrophe *)
+Lemma w_literals :
+  is_rejected (parse_idl (cat [bytes_of_string "const string s = "; [34; 97; 92; 92; 34; 10]])) = true
+  /\ is_rejected (parse_idl (cat [bytes_of_string "const string s = "; [34; 105; 116; 92; 39; 115; 34; 10]])) = true.
+Proof. vm_compute. split; reflexivity. Qed.
+
+Close Scope string_scope.
